@@ -265,7 +265,8 @@ Handle(ll, e) ==
                        /\ ~(LET want == TokenMeaning(e.s).fn IN IF want.f = "None" THEN fns = <<>> ELSE Len(fns) = 1 /\ FnEq(fns[1], want))
                      THEN <<Msg("FAIL C03", ll, "the specification's own parser disagrees with the meaning of the sequence as written")>> ELSE <<>>)
                  \o (IF k = "fs" /\ TokenMeaning(e.s).known /\ TokenMeaning(e.s).fn.f = "None"
-                       /\ ~(/\ Normal(cur.t, IF e.consumed THEN e.dr ELSE <<>>) = Normal(prev.t, <<>>)
+                       /\ ~(/\ ViewNormal(cur.t) = ViewNormal(prev.t)                       \* (the end-of-call trim may run: it is not the sequence's doing)
+                            /\ SuffixOf(cur.t.buf.lines, prev.t.buf.lines)
                             /\ ((\A i \in 1..Len(prev.t.dirty) : ~prev.t.dirty[i]) => e.ch = <<>>)
                             /\ cur.p.state = "Ground")
                      THEN <<Msg("FAIL C20", ll, "a sequence that means nothing (as written) changed the terminal, reported a changed line or left the parser outside ground state")>> ELSE <<>>)
